@@ -916,3 +916,82 @@ def rule_extraction_never_gives_up(ctx, facts, rule):
         tb = fn.calls_re(r"RefCell::<T>::try_borrow(_mut)?$|Mutex::<R, T>::try_lock$", cleanup=False)
         ctx.check(not tb, rule, p, fn.span, "%s does not give up (return None) because the span stack is momentarily borrowed" % p.rsplit("::", 1)[1],
                   "", "try_borrow at %s: inside a property closure the extraction would silently yield None" % [fn.loc(b) for b in tb], extra="no-try-borrow")
+
+
+def rule_id_generator(ctx, facts, rule):
+    """C02-R7: SpanId::next_id combines the per-thread prefix (high 32 bits) with a counter that is incremented by a
+    non-zero constant and stored back on every call -- the structural part of "distinct ids for distinct spans"."""
+    prov = Prov(facts)
+    cl = [f for p, f in facts.fns.items() if p.startswith("fastrace::collector::id::SpanId::next_id::{closure#")]
+    gen = None
+    for f in cl:
+        if f.calls_re(r"core::cell::Cell::<T>::set$", cleanup=False):
+            gen = f
+    if gen is None:
+        ctx.fail(rule, "fastrace::collector::id::SpanId::next_id", "-", "the id generator closure exists", "anchor lost: no closure calling Cell::set", extra="gen")
+        return
+    sets = gen.calls_re(r"core::cell::Cell::<T>::set$", cleanup=False)
+    gets = gen.calls_re(r"core::cell::Cell::<T>::get$", cleanup=False)
+    ok_set = False
+    detail = ""
+    for b in sets:
+        t = gen.term(b)
+        src1 = prov.of_operand(gen, dict(t["args"][1], p=t["args"][1]["p"] + [".1"])) if t["args"][1]["k"] in ("copy", "move") else set()
+        inc = [v for o in src1 for v in o.via if v[0] == "call" and re.search(r"<impl u32>::(wrapping_add|checked_add|saturating_add)$", v[1])]
+        consts = []
+        for v in inc:
+            a = gen.term(v[2])["args"][1]
+            consts.append(a.get("v"))
+        src0 = prov.of_operand(gen, dict(t["args"][1], p=t["args"][1]["p"] + [".0"])) if t["args"][1]["k"] in ("copy", "move") else set()
+        keep_prefix = any(v[0] == "call" and v[1].endswith("Cell::<T>::get") for o in src0 for v in o.via) and not any(
+            v[0] == "call" and "adding" in v[1] for o in src0 for v in o.via)
+        ok_set = bool(inc) and all(c not in (0, None) for c in consts) and keep_prefix and any(
+            v[0] == "call" and v[1].endswith("Cell::<T>::get") for o in src1 for v in o.via)
+        detail = "counter increments %s, prefix kept: %s" % (consts, keep_prefix)
+    ctx.check(ok_set and len(sets) == 1 and len(gets) == 1, rule, gen.path, gen.span,
+              "every call stores (prefix, counter + c) back with a non-zero constant c (the counter advances on each id)", detail,
+              detail or "no Cell::set of the advanced counter", extra="advance")
+    cons = [c for c in constructions(facts, "fastrace::collector::id::SpanId", crates=["fastrace"]) if c[0] is gen]
+    ok_id = False
+    d2 = ""
+    if cons:
+        _, b, s, f = cons[0]
+        src = prov.of_operand(gen, list(f.values())[0])
+        hi = [o for o in src if ("Shl", 32) in [(v[1], v[2]) for v in o.via if v[0] == "binop"]]
+        lo = [o for o in src if o not in hi and any(v[0] == "call" and re.search(r"wrapping_add$", v[1]) for v in o.via)]
+        ok_id = any(o.path[-1:] == (".0",) for o in hi) and bool(lo) and not any(o.path[-1:] == (".0",) for o in lo) and \
+            any(v[0] == "binop" and v[1] == "BitOr" for o in src for v in o.via)
+        d2 = "high half %s, low half %s" % (origin_strs(hi, 3), origin_strs(lo, 3))
+    ctx.check(ok_id, rule, gen.path, gen.span, "the id is (prefix << 32) | advanced counter", d2, d2 or "no SpanId construction", extra="compose")
+    nid = facts.fn("fastrace::collector::id::SpanId::next_id")
+    if nid is not None:
+        fb = [c for c in facts.closures_of(nid) if c is not gen]
+        rnd = any(c.calls_re(r"rand::random$") for c in fb)
+        ctx.check(rnd, rule, nid.path, nid.span, "when the thread-local generator is gone (teardown) a random id is used instead of a constant", "",
+                  "fallback closure does not call rand::random", extra="fallback")
+    init = [f for p, f in facts.fns.items() if p.startswith("fastrace::collector::id::LOCAL_ID_GENERATOR::")]
+    rnd2 = any(f.calls_re(r"rand::random$") for f in init)
+    ctx.check(rnd2, rule, "fastrace::collector::id::LOCAL_ID_GENERATOR", "-", "the per-thread prefix is drawn at random when the thread first traces", "",
+              "initialiser does not call rand::random", extra="prefix")
+
+
+def rule_context_constructors(ctx, facts, rule):
+    """SpanContext::new / sampled() are field-wise: what a decoder or Span::root reads back is what was put in."""
+    prov = Prov(facts)
+    cons = [c for c in constructions(facts, SPAN_CONTEXT, crates=["fastrace"]) if c[0].path == "fastrace::collector::id::SpanContext::new"]
+    ok = False
+    if cons:
+        fn, b, s, f = cons[0]
+        ok = {sig(x) for x in data_origins(prov.of_operand(fn, f["trace_id"]))} == {("param", 1, ())} and \
+            {sig(x) for x in data_origins(prov.of_operand(fn, f["span_id"]))} == {("param", 2, ())}
+    ctx.check(ok, rule, "fastrace::collector::id::SpanContext::new", "-", "SpanContext::new(trace_id, span_id) stores its arguments in the fields of the same name", "",
+              "field origins differ", extra="new")
+    fn = facts.fn("fastrace::collector::id::SpanContext::sampled")
+    ok2 = False
+    if fn is not None:
+        assigns = [(b, s) for b, blk in enumerate(fn.blocks) for s in blk["stmts"] if s["k"] == "assign" and s["lhs"]["l"] == 1 and s["lhs"]["p"] == [".sampled"]]
+        ok2 = len(assigns) == 1 and {sig(x) for x in data_origins(prov._of_rvalue(fn, assigns[0][0], assigns[0][1]["rv"], (), 0, set()))} == {("param", 2, ())}
+        ret = data_origins(prov.of_local(fn, 0))
+        ok2 = ok2 and any(x.kind == "param" and x.key == 1 for x in ret)
+    ctx.check(ok2, rule, "fastrace::collector::id::SpanContext::sampled", "-", "SpanContext::sampled(flag) sets exactly the sampled field to its argument and returns the context", "",
+              "setter shape differs", extra="sampled")
